@@ -602,7 +602,7 @@ func init() { registerReplay("C16", propC16) }
 
 const c16Rule = "rapid-generated: descriptor (1..4 unary + 1..4 stream methods, all flag combinations) x 0..3 decoration layers via InterceptServer / WithInterceptor, each with nil or non-nil unary and stream interceptors x transport-level interceptors nil or set x behaviour per interceptor (pass, short-circuit error, short-circuit response, rewrite request, rewrite response, rewrite error) x handler ok/fail, dispatched directly on the decorated descriptor, through the in-process channel, httpgrpc.Server and HandleServices; " +
 	"oracle = model interpreter: ordered event log (transport interceptor, decorations outermost first, handler iff everybody calls onward; full method names and stream flags as logged by the interceptors) and final response/status must be equal; snapshot of the original ServiceDesc unchanged; no interceptors => same pointer; " +
-	"also generated since the seeded rounds: the same decorated description on a second carrier, non-root base paths, interceptors deriving a context (markers must be visible downstream), clients opening streams with a bidi descriptor whatever the method's flags, slashless method names on the in-process channel; " +
+	"also generated since the seeded rounds: the same decorated description on a second carrier, non-root base paths, interceptors deriving a context (markers must be visible downstream), clients opening streams with a bidi descriptor whatever the method's flags, slashless method names on the in-process channel, channel interceptors configured after registration; " +
 	"non-trivial = >=2 interceptors in the chain or a short-circuit; distinct by case hash"
 
 func TestC16(t *testing.T) {
